@@ -54,8 +54,12 @@ Definition rtb_step (c : rtb_cfg) (s : rtb_state) (loss : list F) : rtb_state :=
   let stop := tolstop || (rtb_max c <=? steps)%Z || (rtb_patience c <=? pc)%Z in
   {| rtb_steps := steps; rtb_pc := pc; rtb_last := Some loss; rtb_cont := rtb_cont s && negb stop |}.
 (* _Stepper.reset: last, steps, _continual; patience_count is NOT touched *)
-Definition rtb_reset (s : rtb_state) : rtb_state :=
+(* history: reset() as coded before the repair in /repo ("fix: ReduceToBason.reset() also clears the patience counter"):
+   the patience counter survived *)
+Definition rtb_reset_old (s : rtb_state) : rtb_state :=
   {| rtb_steps := 0; rtb_pc := rtb_pc s; rtb_last := None; rtb_cont := true |}.
+(* reset() as coded now: _Stepper.reset (last = inf, steps = 0, continual) and patience_count = 0 *)
+Definition rtb_reset (s : rtb_state) : rtb_state := rtb_init.
 
 (* ---------------- driver loops: while continual(): body; step(loss_k) ----------------
    [losses] is the stream of losses the body would produce; the loop consumes a prefix *)
